@@ -41,7 +41,7 @@ structure SimW (s : McSys σ) (r : RState σ) (a : AStore) : Prop where
     | .timer p _ _ => r.procCrashed p = false
     | _ => True
 
-def Sim (s : McSys σ) (r : RState σ) : Prop := ∃ a, SimW s r a
+def SimRel0 (s : McSys σ) (r : RState σ) : Prop := ∃ a, SimW s r a
 
 /-- the handler only addresses processes that exist (otherwise `get_proc_node` panics) -/
 def SendsKnown (h : Handler σ) (s : McSys σ) : Prop :=
